@@ -59,6 +59,23 @@ impl<'tcx> M<'tcx> {
         None
     }
 
+    /// branch on a symbolic boolean term, reusing an earlier decision on the same term
+    pub fn decide_bool(&mut self, t: Tid) -> bool {
+        for (ct, v) in self.conds.iter() {
+            if *ct == t {
+                return !(*v == 0);
+            }
+        }
+        let c = self.decide(2);
+        if c == 0 {
+            self.conds.push((t, 0));
+            false
+        } else {
+            self.conds.push((t, -1));
+            true
+        }
+    }
+
     fn scalar_args(&mut self, vals: &[(V<'tcx>, Ty<'tcx>)]) -> R<Vec<Tid>> {
         let mut out = vec![];
         for (v, t) in vals {
@@ -183,6 +200,43 @@ impl<'tcx> M<'tcx> {
         if let Some(en) = self.ext_name(d, cargs) {
             if let Some(v) = self.try_concrete_ext(&en, &vals, ret_ty) {
                 return Ok(v);
+            }
+            // three-way comparison of primitives: decided by branching on `<` then `==` (total order; NaN excluded)
+            if en.contains("PartialOrd::partial_cmp<") || en.contains("Ord::cmp<") {
+                let a = self.scalar_args(&vals)?;
+                if a.len() == 2 {
+                    let tys = en[en.find('<').unwrap()..].to_string();
+                    let conc = |m: &Self, t: Tid| -> Option<i128> {
+                        if let Term::CInt(v, _) = &m.terms.tab[t as usize] {
+                            Some(*v)
+                        } else {
+                            None
+                        }
+                    };
+                    let ord = if let (Some(x), Some(y)) = (conc(self, a[0]), conc(self, a[1])) {
+                        if x < y {
+                            0
+                        } else if x == y {
+                            1
+                        } else {
+                            2
+                        }
+                    } else {
+                        let lt = self.terms.op(&format!("ext:core:PartialOrd::lt{}", tys), a.clone());
+                        if self.decide_bool(lt) {
+                            0
+                        } else {
+                            let eq = self.terms.op(&format!("ext:core:PartialEq::eq{}", tys), a.clone());
+                            if self.decide_bool(eq) {
+                                1
+                            } else {
+                                2
+                            }
+                        }
+                    };
+                    let o = V::Enum(ord, vec![]);
+                    return Ok(if en.contains("partial_cmp") { V::Enum(1, vec![o]) } else { o });
+                }
             }
             // compound assignment on a primitive: compute and store through the first argument
             if en.contains("Assign::") {
